@@ -211,21 +211,18 @@ def run(ctx):
                 and common.state_name(n.value) == 'DELETED']
         ctx.check(len(dele) == 1, 'Q3', 'the refused IKE_SA is marked DELETED', key=('Q3', 'deleted'), site=ctx.site(preq, h.ast))
     fe = ctx.func('message.PayloadNOTIFY.from_exception')
-    table = None
-    for n in walk_no_nested(fe.node):
-        if isinstance(n, ast.Assign) and isinstance(n.value, ast.Dict):
-            table = {src(k): src(v).split('.')[-1] for k, v in zip(n.value.keys, n.value.values)}
-    ctx.check(table is not None and table.get('CookieRequired') == 'COOKIE', 'Q3', 'CookieRequired maps to the COOKIE notification',
+    FE = ctx.sval(fe)
+    exn = fe.call_params()[0]
+    note = FE.ret()
+    from ..sval import NONE, strip_ids
+    from .. import tq
+    na = tq.args(note) if tq.is_call(note, 'new message.PayloadNOTIFY') else {}
+    is_cookie = tq.eq_decider(FE.expr('type(%s)' % exn), ('global', 'message.CookieRequired'), True)
+    ctx.check(common.notify_type_of(ctx, 'CookieRequired') == 'COOKIE', 'Q3', 'CookieRequired maps to the COOKIE notification',
               key=('Q3', 'table'), site=ctx.site(fe, fe.node))
-    ok = False
-    for n in walk_no_nested(fe.node):
-        if isinstance(n, ast.If) and src(n.test) in ('type(ex) is CookieRequired', 'isinstance(ex, CookieRequired)'):
-            ok = any(isinstance(s, ast.Assign) and src(s.value) == 'ex.cookie' and src(s.targets[0]) == 'notification_data'
-                     for s in n.body)
-    rets = [n for n in walk_no_nested(fe.node) if isinstance(n, ast.Return)]
-    ok = ok and len(rets) == 1 and isinstance(rets[0].value, ast.Call) and 'notification_data' in [src(a) for a in rets[0].value.args]
-    ctx.check(ok, 'Q3', 'the COOKIE notification carries the expected cookie as its data', key=('Q3', 'cookie-data'),
-              site=ctx.site(fe, fe.node))
+    nd = common.notify_field_of(ctx, 'CookieRequired', 'notification_data')[1] or NONE
+    ctx.check(strip_ids(nd) == strip_ids(FE.expr('%s.cookie' % exn)), 'Q3', 'the COOKIE notification carries the expected cookie as its data',
+              key=('Q3', 'cookie-data'), site=ctx.site(fe, fe.node), detail={'found': tq.text(nd, 200)})
     ce = ctx.func('message.CookieRequired.__init__')
     ctx.check(any(isinstance(n, ast.Assign) and src(n.targets[0]) == 'self.cookie' and src(n.value) == 'cookie'
                   for n in walk_no_nested(ce.node)), 'Q3', 'CookieRequired keeps the cookie it is given', key=('Q3', 'exc-field'),
